@@ -469,6 +469,13 @@ func runPair(rn *runner, p *probe, ps *pairSpec, r *vlib.PRNG, st *stats, h *fnv
 			map[string]any{"run": rc.name, "panic": rc.res.pan, "stack": rc.res.stack, "exec": hx(rc.in.exec)}})
 		return out
 	}
+	for _, rc := range runs {
+		if rc.res.realBad != "" {
+			out = append(out, finding{"write-outside-the-frames-of-the-accessed-pages", fmt.Sprintf("%s run: %s", rc.name, rc.res.realBad),
+				map[string]any{"run": rc.name, "exec": hx(rc.in.exec)}})
+			break
+		}
+	}
 	if ps.Exec != 0 && ps.Exec != ^uint64(0) {
 		st.partial = true
 	}
